@@ -13,71 +13,144 @@ def Fresh (st : CState) : Prop := st.pick.choices = refresh st.F (st.hdata.map s
 /-- a queued message that will make the helper refresh when it is delivered. -/
 def Pending (hdata : List Nat) (q : List Msg) : Prop := ∃ d ∈ hdata, Msg.changed d ∈ q
 
+/-- the helper as a hub listener: subscribed exactly when it has a hub reference; it has one
+whenever it holds a dataset, and from the start when it was given the collection. -/
+structure SubInv (st : CState) : Prop where
+  eq : st.sub = st.hub
+  holds : st.hdata ≠ [] → st.hub = true
+  dc : st.hasDc = true → st.hub = true
+
 structure CInv (st : CState) : Prop where
   fresh : Fresh st ∨ (st.depth > 0 ∧ Pending st.hdata st.queue)
   sel : selOk st.pick.choices st.pick.sel = true
+  subs : SubInv st
 
 theorem fresh_doRefresh (st : CState) : Fresh (doRefresh st) := rfl
 
 theorem selOk_doRefresh (st : CState) : selOk (doRefresh st).pick.choices (doRefresh st).pick.sel = true :=
   selOk_choicesUpdated _ _ _
 
-/-- a delivery either leaves the state alone or ends with a `refresh`. -/
-theorem deliver_cases (st : CState) (m : Msg) :
-    deliver st m = st ∨ ∃ st', deliver st m = doRefresh st' ∧ st'.depth = st.depth ∧ st'.queue = st.queue ∧
-      st'.data = st.data ∧ st'.F = st.F := by
+/-- `release` touches the subscription fields only. -/
+theorem release_fields (r : Release) (st : CState) :
+    (release r st).pick = st.pick ∧ (release r st).F = st.F ∧ (release r st).hdata = st.hdata ∧
+    (release r st).data = st.data ∧ (release r st).depth = st.depth ∧ (release r st).queue = st.queue ∧
+    (release r st).hasDc = st.hasDc := by
+  cases r
+  · exact ⟨rfl, rfl, rfl, rfl, rfl, rfl, rfl⟩
+  · simp only [release]; split <;> exact ⟨rfl, rfl, rfl, rfl, rfl, rfl, rfl⟩
+  · simp only [release]; split <;> exact ⟨rfl, rfl, rfl, rfl, rfl, rfl, rfl⟩
+
+theorem fresh_release (r : Release) (st : CState) (h : Fresh st) : Fresh (release r st) := by
+  obtain ⟨h1, h2, h3, h4, _⟩ := release_fields r st
+  unfold Fresh; rw [h1, h2, h3, h4]; exact h
+
+theorem selOk_release (r : Release) (st : CState) (h : selOk st.pick.choices st.pick.sel = true) :
+    selOk (release r st).pick.choices (release r st).pick.sel = true := by
+  rw [(release_fields r st).1]; exact h
+
+theorem sub_release (r : Release) (hr : r.sound) (st : CState) (h : SubInv st) : SubInv (release r st) := by
+  cases r with
+  | never => exact h
+  | keepRef => exact absurd rfl hr
+  | resetRef =>
+    simp only [release]
+    split
+    · rename_i hc
+      simp only [Bool.and_eq_true, Bool.not_eq_true', List.isEmpty_iff] at hc
+      exact ⟨rfl, fun hne => absurd hc.2 hne, fun hd => by simp [hc.1.1] at hd⟩
+    · exact h
+
+theorem sub_latch (st : CState) (h : SubInv st) : SubInv (latch st) ∧ (latch st).hub = true := by
+  unfold latch
+  by_cases hh : st.hub = true
+  · simp only [hh, if_true]; exact ⟨h, trivial⟩
+  · simp only [hh, Bool.false_eq_true, if_false]
+    exact ⟨⟨rfl, fun _ => rfl, fun _ => rfl⟩, trivial⟩
+
+theorem latch_fields (st : CState) :
+    (latch st).pick = st.pick ∧ (latch st).F = st.F ∧ (latch st).hdata = st.hdata ∧
+    (latch st).data = st.data ∧ (latch st).depth = st.depth ∧ (latch st).queue = st.queue ∧
+    (latch st).nData = st.nData := by
+  unfold latch; split <;> exact ⟨rfl, rfl, rfl, rfl, rfl, rfl, rfl⟩
+
+/-- the subscription invariant survives a change of `helper._data` to a list that is empty unless
+the hub reference is set, followed by `refresh`. -/
+theorem sub_setData (st : CState) (h : SubInv st) (l : List Nat) (hl : l ≠ [] → st.hub = true) :
+    SubInv (doRefresh { st with hdata := l }) := ⟨h.eq, hl, h.dc⟩
+
+theorem sub_helperRemove (r : Release) (hr : r.sound) (d : Nat) (st : CState) (h : SubInv st) :
+    SubInv (helperRemove r d st) := by
+  unfold helperRemove
+  split
+  · refine sub_release r hr _ (sub_setData st h _ ?_)
+    intro hne
+    apply h.holds
+    intro he
+    rw [he] at hne
+    exact hne (by simp)
+  · exact h
+
+theorem sub_deliver (r : Release) (hr : r.sound) (st : CState) (m : Msg) (h : SubInv st) :
+    SubInv (deliver r st m) := by
+  cases m with
+  | changed d => simp only [deliver]; split <;> exact ⟨h.eq, h.holds, h.dc⟩
+  | renamed d => exact h
+  | deleted d => simp only [deliver]; split
+                 · exact sub_helperRemove r hr d st h
+                 · exact h
+
+theorem deliver_fresh_or_same (r : Release) (st : CState) (m : Msg) :
+    deliver r st m = st ∨
+    (Fresh (deliver r st m) ∧ selOk (deliver r st m).pick.choices (deliver r st m).pick.sel = true) := by
   cases m with
   | changed d =>
     simp only [deliver]
     split
-    · exact Or.inr ⟨st, rfl, rfl, rfl, rfl, rfl⟩
+    · exact Or.inr ⟨fresh_doRefresh st, selOk_doRefresh st⟩
     · exact Or.inl rfl
   | renamed d => exact Or.inl rfl
   | deleted d =>
     simp only [deliver, helperRemove]
     split
-    · exact Or.inr ⟨_, rfl, rfl, rfl, rfl, rfl⟩
+    · split
+      · exact Or.inr ⟨fresh_release r _ (fresh_doRefresh _), selOk_release r _ (selOk_doRefresh _)⟩
+      · exact Or.inl rfl
     · exact Or.inl rfl
 
-theorem deliver_fresh_or_same (st : CState) (m : Msg) :
-    deliver st m = st ∨ (Fresh (deliver st m) ∧ selOk (deliver st m).pick.choices (deliver st m).pick.sel = true) := by
-  rcases deliver_cases st m with h | ⟨st', h, _⟩
-  · exact Or.inl h
-  · right; rw [h]; exact ⟨fresh_doRefresh st', selOk_doRefresh st'⟩
-
-theorem deliver_depth (st : CState) (m : Msg) : (deliver st m).depth = st.depth ∧ (deliver st m).queue = st.queue := by
-  rcases deliver_cases st m with h | ⟨st', h, h1, h2, _⟩
-  · rw [h]; exact ⟨rfl, rfl⟩
-  · rw [h]; exact ⟨h1, h2⟩
-
 /-- delivering the queue: if the helper was fresh, or some queued message concerns one of its
-datasets, it is fresh afterwards (nothing mutates the datasets during a flush). -/
-theorem flush_fresh (q : List Msg) : ∀ st : CState,
-    (Fresh st ∨ Pending st.hdata q) → selOk st.pick.choices st.pick.sel = true →
-    Fresh (q.foldl deliver st) ∧ selOk (q.foldl deliver st).pick.choices (q.foldl deliver st).pick.sel = true := by
+datasets, it is fresh afterwards (nothing mutates the datasets during a flush) — a helper that holds
+a dataset is subscribed, so that message reaches it. -/
+theorem flush_fresh (r : Release) (hr : r.sound) (q : List Msg) : ∀ st : CState,
+    (Fresh st ∨ Pending st.hdata q) → selOk st.pick.choices st.pick.sel = true → SubInv st →
+    Fresh (q.foldl (deliver r) st) ∧
+    selOk (q.foldl (deliver r) st).pick.choices (q.foldl (deliver r) st).pick.sel = true ∧
+    SubInv (q.foldl (deliver r) st) := by
   induction q with
   | nil =>
-    intro st h hs
+    intro st h hs hsub
     rcases h with h | ⟨d, _, hd⟩
-    · exact ⟨h, hs⟩
+    · exact ⟨h, hs, hsub⟩
     · simp at hd
   | cons m q ih =>
-    intro st h hs
+    intro st h hs hsub
     simp only [List.foldl_cons]
-    rcases deliver_fresh_or_same st m with hsame | ⟨hf, hs'⟩
+    have hsub' := sub_deliver r hr st m hsub
+    rcases deliver_fresh_or_same r st m with hsame | ⟨hf, hs'⟩
     · rw [hsame]
       rcases h with h | ⟨d, hd, hq⟩
-      · exact ih st (Or.inl h) hs
+      · exact ih st (Or.inl h) hs hsub
       · rcases List.mem_cons.1 hq with rfl | hq'
-        · -- this very message refreshes: contradiction with `deliver = st` unless already fresh
-          have : deliver st (.changed d) = doRefresh st := by
+        · -- this very message refreshes (the helper holds `d`, hence is subscribed)
+          have hne : st.hdata ≠ [] := by intro he; rw [he] at hd; simp at hd
+          have hs1 : st.sub = true := by rw [hsub.eq]; exact hsub.holds hne
+          have : deliver r st (.changed d) = doRefresh st := by
             have hc : st.hdata.contains d = true := by simpa using hd
-            simp only [deliver, hc, if_true]
+            simp only [deliver, hc, hs1, Bool.and_self, if_true]
           rw [this] at hsame
           have hfr : Fresh st := by rw [← hsame]; exact fresh_doRefresh st
-          exact ih st (Or.inl hfr) hs
-        · exact ih st (Or.inr ⟨d, hd, hq'⟩) hs
-    · exact ih _ (Or.inl hf) hs'
+          exact ih st (Or.inl hfr) hs hsub
+        · exact ih st (Or.inr ⟨d, hd, hq'⟩) hs hsub
+    · exact ih _ (Or.inl hf) hs' hsub'
 
 theorem map_upd_of_not_mem (data : Nat → DS) (d : Nat) (D : DS) (hdata : List Nat) (h : d ∉ hdata) :
     hdata.map (upd data d D) = hdata.map data := by
@@ -87,14 +160,15 @@ theorem map_upd_of_not_mem (data : Nat → DS) (d : Nat) (D : DS) (hdata : List 
   simp [upd, this]
 
 /-- a mutation of dataset `d` followed by the broadcast of its `ComponentsChangedMessage`. -/
-theorem inv_mutate (st : CState) (h : CInv st) (d k : Nat) (D : DS) :
-    CInv (bcast (.changed d) { st with nCid := k, data := upd st.data d D }) := by
+theorem inv_mutate (r : Release) (st : CState) (h : CInv st) (d k : Nat) (D : DS) :
+    CInv (bcast r (.changed d) { st with nCid := k, data := upd st.data d D }) := by
+  have hsub : SubInv { st with nCid := k, data := upd st.data d D } := ⟨h.subs.eq, h.subs.holds, h.subs.dc⟩
   unfold bcast
   by_cases hdep : st.depth > 0
   · simp only [hdep, if_true]
     by_cases hd : d ∈ st.hdata
-    · exact ⟨Or.inr ⟨hdep, d, hd, by simp⟩, h.sel⟩
-    · refine ⟨?_, h.sel⟩
+    · exact ⟨Or.inr ⟨hdep, d, hd, by simp⟩, h.sel, ⟨h.subs.eq, h.subs.holds, h.subs.dc⟩⟩
+    · refine ⟨?_, h.sel, ⟨h.subs.eq, h.subs.holds, h.subs.dc⟩⟩
       rcases h.fresh with hf | ⟨_, d', hd', hq⟩
       · left
         show st.pick.choices = refresh st.F (st.hdata.map (upd st.data d D))
@@ -106,21 +180,28 @@ theorem inv_mutate (st : CState) (h : CInv st) (d k : Nat) (D : DS) :
       · exact hf
       · exact absurd hd hdep
     simp only [deliver]
-    by_cases hd : st.hdata.contains d = true
-    · simp only [hd, if_true]
-      exact ⟨Or.inl (fresh_doRefresh _), selOk_doRefresh _⟩
-    · simp only [hd, Bool.false_eq_true, if_false]
-      refine ⟨Or.inl ?_, h.sel⟩
+    split
+    · exact ⟨Or.inl (fresh_doRefresh _), selOk_doRefresh _, ⟨h.subs.eq, h.subs.holds, h.subs.dc⟩⟩
+    · rename_i hc
+      have hd : ¬ d ∈ st.hdata := by
+        intro hd
+        have hne : st.hdata ≠ [] := by intro he; rw [he] at hd; simp at hd
+        have hs1 : st.sub = true := by rw [h.subs.eq]; exact h.subs.holds hne
+        have hc' : st.hdata.contains d = true := by simpa using hd
+        apply hc
+        show (st.sub && st.hdata.contains d) = true
+        rw [hs1, hc']; rfl
+      refine ⟨Or.inl ?_, h.sel, hsub⟩
       show st.pick.choices = refresh st.F (st.hdata.map (upd st.data d D))
-      rw [map_upd_of_not_mem _ _ _ _ (by simpa using hd)]; exact hf
+      rw [map_upd_of_not_mem _ _ _ _ hd]; exact hf
 
 /-- a broadcast that does not follow a change of the datasets (rename, collection delete). -/
-theorem inv_bcast_other (st : CState) (h : CInv st) (m : Msg) (hm : ∀ d, m ≠ .changed d) :
-    CInv (bcast m st) := by
+theorem inv_bcast_other (r : Release) (hr : r.sound) (st : CState) (h : CInv st) (m : Msg)
+    (hm : ∀ d, m ≠ .changed d) : CInv (bcast r m st) := by
   unfold bcast
   by_cases hdep : st.depth > 0
   · simp only [hdep, if_true]
-    refine ⟨?_, h.sel⟩
+    refine ⟨?_, h.sel, ⟨h.subs.eq, h.subs.holds, h.subs.dc⟩⟩
     rcases h.fresh with hf | ⟨_, d', hd', hq⟩
     · exact Or.inl hf
     · exact Or.inr ⟨hdep, d', hd', by simp [hq]⟩
@@ -129,90 +210,126 @@ theorem inv_bcast_other (st : CState) (h : CInv st) (m : Msg) (hm : ∀ d, m ≠
       rcases h.fresh with hf | ⟨hd, _⟩
       · exact hf
       · exact absurd hd hdep
-    rcases deliver_fresh_or_same st m with hs | ⟨hf', hs'⟩
-    · rw [hs]; exact ⟨Or.inl hf, h.sel⟩
-    · exact ⟨Or.inl hf', hs'⟩
+    have hsub := sub_deliver r hr st m h.subs
+    rcases deliver_fresh_or_same r st m with hs | ⟨hf', hs'⟩
+    · rw [hs]; exact ⟨Or.inl hf, h.sel, h.subs⟩
+    · exact ⟨Or.inl hf', hs', hsub⟩
 
-theorem cinv_err {st : CState} (h : CInv st) (e : Bool) : CInv { st with err := e } := ⟨h.fresh, h.sel⟩
+theorem cinv_err {st : CState} (h : CInv st) (e : Bool) : CInv { st with err := e } :=
+  ⟨h.fresh, h.sel, ⟨h.subs.eq, h.subs.holds, h.subs.dc⟩⟩
 
-theorem cinv_inDc {st : CState} (h : CInv st) (l : List Nat) : CInv { st with inDc := l } := ⟨h.fresh, h.sel⟩
+theorem cinv_inDc {st : CState} (h : CInv st) (l : List Nat) : CInv { st with inDc := l } :=
+  ⟨h.fresh, h.sel, ⟨h.subs.eq, h.subs.holds, h.subs.dc⟩⟩
 
-theorem cinv_doRefresh (st : CState) : CInv (doRefresh st) := ⟨Or.inl (fresh_doRefresh st), selOk_doRefresh st⟩
+theorem cinv_doRefresh (st : CState) (h : SubInv (doRefresh st)) : CInv (doRefresh st) :=
+  ⟨Or.inl (fresh_doRefresh st), selOk_doRefresh st, h⟩
+
+theorem cinv_release (r : Release) (hr : r.sound) (st : CState) (h : SubInv (doRefresh st)) :
+    CInv (release r (doRefresh st)) := by
+  obtain ⟨_, _, _, _, hd, hq, _⟩ := release_fields r (doRefresh st)
+  exact ⟨Or.inl (fresh_release r _ (fresh_doRefresh st)), selOk_release r _ (selOk_doRefresh st),
+    sub_release r hr _ h⟩
 
 /-- the client's selections are admissible (see `POp.admissible`). -/
 def cAdm (st : CState) : COp → Bool
   | .select v => POp.admissible st.pick (.select v)
   | _ => true
 
-theorem cinv_step (st : CState) (op : COp) (h : CInv st) (ha : cAdm st op = true) : CInv (cstep st op) := by
+theorem cinv_step (r : Release) (hr : r.sound) (st : CState) (op : COp) (h : CInv st) (ha : cAdm st op = true) :
+    CInv (cstepR r st op) := by
   have h0 := cinv_err h false
   cases op with
   | addComp d k =>
-    simp only [cstep]
+    simp only [cstepR]
     split
-    · exact inv_mutate _ h0 d _ _
+    · exact inv_mutate r _ h0 d _ _
     · exact h0
   | addDerived d =>
-    simp only [cstep]
+    simp only [cstepR]
     split
-    · exact inv_mutate _ h0 d _ _
+    · exact inv_mutate r _ h0 d _ _
     · exact h0
   | removeComp d i =>
-    simp only [cstep]
+    simp only [cstepR]
     split
     · split
-      · have := inv_mutate _ h0 d st.nCid (removeCid (st.data d) ‹Nat›)
+      · have := inv_mutate r _ h0 d st.nCid (removeCid (st.data d) ‹Nat›)
         exact this
       · exact h0
     · exact h0
   | rename d i =>
-    simp only [cstep]
+    simp only [cstepR]
     split
     · split
-      · exact inv_bcast_other _ h0 _ (by intro d' hd; cases hd)
+      · exact inv_bcast_other r hr _ h0 _ (by intro d' hd; cases hd)
       · exact h0
     · exact h0
   | reorder d =>
-    simp only [cstep]
+    simp only [cstepR]
     split
-    · have := inv_mutate _ h0 d st.nCid { st.data d with main := (st.data d).main.reverse, derived := (st.data d).derived.reverse }
+    · have := inv_mutate r _ h0 d st.nCid { st.data d with main := (st.data d).main.reverse, derived := (st.data d).derived.reverse }
       exact this
     · exact h0
   | replace d i =>
-    simp only [cstep]
+    simp only [cstepR]
     split
     · split
-      · exact inv_mutate _ h0 d _ _
+      · exact inv_mutate r _ h0 d _ _
       · exact h0
     · exact h0
   | helperAppend d =>
-    simp only [cstep]
+    simp only [cstepR]
     split
-    · exact cinv_doRefresh _
+    · obtain ⟨hl, hh⟩ := sub_latch _ h0.subs
+      split
+      · exact cinv_doRefresh _ (sub_setData _ hl _ (fun _ => hh))
+      · obtain ⟨h1, h2, h3, h4, h5, h6, _⟩ := latch_fields { st with err := false }
+        refine ⟨?_, ?_, hl⟩
+        · rcases h0.fresh with hf | ⟨hp, hq⟩
+          · left; unfold Fresh; rw [h1, h2, h3, h4]; exact hf
+          · right; rw [h5, h6, h3]; exact ⟨hp, hq⟩
+        · rw [h1]; exact h0.sel
     · exact h0
   | helperRemove d =>
-    simp only [cstep, helperRemove]
+    simp only [cstepR, helperRemove]
     split
     · split
-      · exact cinv_doRefresh _
+      · refine cinv_release r hr _ (sub_setData _ h0.subs _ ?_)
+        intro hne
+        apply h0.subs.holds
+        intro he
+        have he' : st.hdata = [] := he
+        rw [he'] at hne
+        exact hne (by simp)
       · exact h0
     · exact h0
-  | setMultiple ds => exact cinv_doRefresh _
-  | setFlag f b => exact cinv_doRefresh _
-  | dcRemove d =>
-    simp only [cstep]
+  | setMultiple ds =>
+    simp only [cstepR]
     split
-    · exact inv_bcast_other _ (cinv_inDc h0 _) _ (by intro d' hd; cases hd)
+    · rename_i he
+      refine cinv_release r hr _ (sub_setData _ h0.subs _ ?_)
+      intro hne
+      exact absurd (List.isEmpty_iff.1 he) hne
+    · obtain ⟨hl, hh⟩ := sub_latch _ h0.subs
+      exact cinv_release r hr _ (sub_setData _ hl _ (fun _ => hh))
+  | helperClear =>
+    simp only [cstepR]
+    exact cinv_release r hr _ (sub_setData _ h0.subs _ (fun hne => absurd rfl hne))
+  | setFlag f b => exact cinv_doRefresh _ ⟨h.subs.eq, h.subs.holds, h.subs.dc⟩
+  | dcRemove d =>
+    simp only [cstepR]
+    split
+    · exact inv_bcast_other r hr _ (cinv_inDc h0 _) _ (by intro d' hd; cases hd)
     · exact h0
   | dcAppend d =>
-    simp only [cstep]
+    simp only [cstepR]
     split
     · exact cinv_inDc h0 _
     · exact h0
   | select v =>
-    simp only [cstep]
+    simp only [cstepR]
     have hsel := selOk_select st.pick v h.sel ha
-    refine ⟨?_, ?_⟩
+    refine ⟨?_, ?_, ⟨h.subs.eq, h.subs.holds, h.subs.dc⟩⟩
     · rcases h.fresh with hf | hp
       · left
         show (st.pick.select v).1.choices = refresh st.F (st.hdata.map st.data)
@@ -221,13 +338,13 @@ theorem cinv_step (st : CState) (op : COp) (h : CInv st) (ha : cAdm st op = true
     · show selOk (st.pick.select v).1.choices (st.pick.select v).1.sel = true
       rw [hsel.2]; exact hsel.1
   | delayOpen =>
-    simp only [cstep]
-    refine ⟨?_, h.sel⟩
+    simp only [cstepR]
+    refine ⟨?_, h.sel, ⟨h.subs.eq, h.subs.holds, h.subs.dc⟩⟩
     rcases h.fresh with hf | ⟨_, hp⟩
     · exact Or.inl hf
     · exact Or.inr ⟨Nat.succ_pos _, hp⟩
   | delayClose =>
-    simp only [cstep]
+    simp only [cstepR]
     split
     · exact h0
     · split
@@ -236,9 +353,10 @@ theorem cinv_step (st : CState) (op : COp) (h : CInv st) (ha : cAdm st op = true
           rcases h.fresh with hf | ⟨_, hp⟩
           · exact Or.inl hf
           · exact Or.inr hp
-        have := flush_fresh st.queue { st with err := false, depth := 0, queue := [] } hstart h.sel
-        exact ⟨Or.inl this.1, this.2⟩
-      · refine ⟨?_, h.sel⟩
+        have := flush_fresh r hr st.queue { st with err := false, depth := 0, queue := [] } hstart h.sel
+          ⟨h.subs.eq, h.subs.holds, h.subs.dc⟩
+        exact ⟨Or.inl this.1, this.2.1, this.2.2⟩
+      · refine ⟨?_, h.sel, ⟨h.subs.eq, h.subs.holds, h.subs.dc⟩⟩
         rcases h.fresh with hf | ⟨_, hp⟩
         · exact Or.inl hf
         · refine Or.inr ⟨?_, hp⟩
@@ -246,22 +364,28 @@ theorem cinv_step (st : CState) (op : COp) (h : CInv st) (ha : cAdm st op = true
           omega
 
 /-- all selections of a history are admissible. -/
-def cAdmRun : CState → List COp → Prop
+def cAdmRunR (r : Release) : CState → List COp → Prop
   | _, [] => True
-  | st, op :: ops => cAdm st op = true ∧ cAdmRun (cstep st op) ops
+  | st, op :: ops => cAdm st op = true ∧ cAdmRunR r (cstepR r st op) ops
 
-theorem cinv_run (ops : List COp) : ∀ st : CState, CInv st → cAdmRun st ops → CInv (crun st ops) := by
+def cAdmRun : CState → List COp → Prop := cAdmRunR .never
+
+theorem cinv_run (r : Release) (hr : r.sound) (ops : List COp) :
+    ∀ st : CState, CInv st → cAdmRunR r st ops → CInv (crunR r st ops) := by
   induction ops with
   | nil => intro st h _; exact h
   | cons op ops ih =>
     intro st h ha
-    exact ih _ (cinv_step st op h ha.1) ha.2
+    exact ih _ (cinv_step r hr st op h ha.1) ha.2
 
-theorem cinv_initWith (n nCid : Nat) (data : Nat → DS) (idx : Int) : CInv (cinitWith n nCid data idx) := by
-  refine ⟨Or.inl ?_, ?_⟩
+theorem cinv_initH (hasDc : Bool) (n nCid : Nat) (data : Nat → DS) (idx : Int) : CInv (cinitH hasDc n nCid data idx) := by
+  refine ⟨Or.inl ?_, ?_, ⟨rfl, fun h => absurd rfl h, fun h => h⟩⟩
   · show ([] : List Choice) = refresh defaultFlags ([].map data)
     rfl
   · rfl
+
+theorem cinv_initWith (n nCid : Nat) (data : Nat → DS) (idx : Int) : CInv (cinitWith n nCid data idx) :=
+  cinv_initH true n nCid data idx
 
 theorem cinv_init (n : Nat) (idx : Int) : CInv (cinit n idx) := cinv_initWith n (5 * n) initDS idx
 
